@@ -15,7 +15,7 @@ def P(name, quick, thorough, **kw):
 E_ENV = "environment model of the node (DESIGN Appendix C): account handles by shard, rollback on error, exactly-once delivery, refund construction, system-contract discipline"
 
 PROPS = {
-    "C01": dict(profiles=[P("transfers", 3000, 400000)], fields=["status", "diff", "xf"],
+    "C01": dict(profiles=[P("transfers", 3000, 400000), P("nonces", 1500, 80000)], fields=["status", "diff", "xf"], oracle_props=["C01", "C02"],
                 assumptions=[E_ENV, "destination is never the system account 0xff..ff (global-settings store)"]),
     # a transfer that changes a world total is a supply violation too (the oracle files it under C01)
     "C02": dict(profiles=[P("supply", 3000, 300000), P("transfers", 1500, 100000)], fields=["status", "diff"], oracle_props=["C02", "C01"],
@@ -23,7 +23,9 @@ PROPS = {
     "C03": dict(profiles=[P("authority", 3000, 300000)], fields=["status", "diff"],
                 assumptions=[E_ENV, "hand-over messages are delivered with caller = previous holder (as the repository's own cross-shard test does)"]),
     "C04": dict(profiles=[P("gates", 3000, 400000)], fields=["status", "diff"], assumptions=[E_ENV]),
-    "C05": dict(profiles=[P("frame", 3000, 300000)], fields=["status", "diff"], assumptions=[E_ENV]),
+    # the nonces profile crosses the byte boundaries of the nonce suffix (256, 65536, 2^32): a key computed wrongly there is a
+    # write outside the footprint
+    "C05": dict(profiles=[P("frame", 3000, 300000), P("nonces", 1500, 80000)], fields=["status", "diff"], assumptions=[E_ENV]),
     "C06": dict(profiles=[P("gas", 3000, 400000, seeds_quick=2)], fields=["status", "gastotal"],
                 assumptions=["gas-schedule costs are non-zero and < 2^32, argument bytes < 2^31 (as the property states)"]),
     "C07": dict(profiles=[P("nonces", 3000, 300000)], fields=["status", "diff", "ret", "xf"],
